@@ -241,11 +241,14 @@ pub fn run(args: &Args) -> i32 {
         if groups > 6 {
             return;
         }
-        let model = OrderModel { run: e.run, banks: Arc::new(e.banks.clone()), groups, reference, executions: execs.clone() };
-        let before = execs.load(Ordering::Relaxed);
+        let mine = Arc::new(AtomicU64::new(0));
+        let model = OrderModel { run: e.run, banks: Arc::new(e.banks.clone()), groups, reference, executions: mine.clone() };
         let checker = model.checker().spawn_bfs().join();
         states.fetch_add(checker.unique_state_count() as u64, Ordering::Relaxed);
-        let _ = before;
+        let n_exec = mine.load(Ordering::Relaxed);
+        execs.fetch_add(n_exec, Ordering::Relaxed);
+        // every execution (bank order x group order) is one evaluation of the real code; all are distinct inputs
+        loc.bulk(n_exec, if e.banks.len() >= 3 { n_exec } else { 0 }, "executions");
         loc.note(hash64(&(e.name, &e.banks)), e.banks.len() >= 3, if reference.is_ok() { "reference-ok" } else { "reference-err" });
         for (name, path) in checker.discoveries() {
             let last = path.last_state().clone();
